@@ -3,7 +3,7 @@
    Print Assumptions.  Models: model/PqBits.v, PqDelta.v (faithful decoders with resumable state,
    spec encoders), PqThrift.v, PqWrite.v (the spec file writer). *)
 From Coq Require Import NArith ZArith List Bool.
-From GV Require Import model.PqBits model.PqDelta model.PqDeltaOld proofs.PqBitsProofs proofs.PqDeltaProofs.
+From GV Require Import model.PqBits model.PqDelta model.PqDeltaOld proofs.PqBitsProofs proofs.PqDeltaProofs proofs.PqPlainProofs.
 Import ListNotations.
 Open Scope N_scope.
 
@@ -104,6 +104,55 @@ Proof.
   split; [|vm_compute; repeat constructor].
   unfold sample_runs. repeat constructor; try (vm_compute; reflexivity); try (exists 1%nat; reflexivity).
 Qed.
+
+(* ---- PLAIN (every physical type) and BYTE_STREAM_SPLIT: round trip and resumption ---- *)
+Theorem C10_plain_num_roundtrip : forall t vals rest,
+  fixed_width t -> Forall (fun v => v < 256 ^ N.of_nat (num_bytes t)) vals ->
+  plain_decode_num (num_bytes t) (length vals) (plain_encode t (map VNum vals) ++ rest) = Ok (vals, rest).
+Proof. exact plain_encode_num_roundtrip. Qed.
+Print Assumptions C10_plain_num_roundtrip.
+
+Theorem C10_plain_num_read_split : forall w n1 n2 buf,
+  plain_decode_num w (n1 + n2) buf =
+  ('(v1, b1) <- plain_decode_num w n1 buf ;; '(v2, b2) <- plain_decode_num w n2 b1 ;; Ok (v1 ++ v2, b2)).
+Proof. exact plain_decode_num_split. Qed.
+Print Assumptions C10_plain_num_read_split.
+
+Theorem C10_plain_bytes_roundtrip : forall vals rest,
+  Forall (fun v => N.of_nat (length v) < 2 ^ 32) vals ->
+  plain_decode_bytes (length vals) (plain_encode PByteArray (map VBytes vals) ++ rest) = Ok (vals, rest).
+Proof. exact plain_bytes_roundtrip. Qed.
+Print Assumptions C10_plain_bytes_roundtrip.
+
+Theorem C10_plain_bytes_read_split : forall n1 n2 buf,
+  plain_decode_bytes (n1 + n2) buf =
+  ('(v1, b1) <- plain_decode_bytes n1 buf ;; '(v2, b2) <- plain_decode_bytes n2 b1 ;; Ok (v1 ++ v2, b2)).
+Proof. exact plain_decode_bytes_split. Qed.
+Print Assumptions C10_plain_bytes_read_split.
+
+Theorem C10_plain_bool_roundtrip : forall vals rest n,
+  Forall (fun v => v < 2) vals -> Forall (fun b => b < 256) rest -> (n <= length vals)%nat ->
+  exists buf' pos', plain_decode_bool n (plain_encode PBool (map VNum vals) ++ rest) 0 = Ok (firstn n vals, buf', pos').
+Proof. exact plain_bool_roundtrip. Qed.
+Print Assumptions C10_plain_bool_roundtrip.
+
+Theorem C10_plain_bool_read_split : forall n1 n2 buf pos,
+  plain_decode_bool (n1 + n2) buf pos =
+  ('(v1, b1, p1) <- plain_decode_bool n1 buf pos ;; '(v2, b2, p2) <- plain_decode_bool n2 b1 p1 ;; Ok (v1 ++ v2, b2, p2)).
+Proof. exact plain_decode_bool_split. Qed.
+Print Assumptions C10_plain_bool_read_split.
+
+Theorem C10_bss_roundtrip : forall k vals,
+  (0 < k)%nat -> Forall (fun v => v < 256 ^ N.of_nat k) vals ->
+  exists st', bss_new k (bss_encode k vals) = Ok (bss_streams k (length vals) (bss_encode k vals)) /\
+    bss_read (length vals) (bss_streams k (length vals) (bss_encode k vals)) = Ok (vals, st').
+Proof. exact bss_roundtrip. Qed.
+Print Assumptions C10_bss_roundtrip.
+
+Theorem C10_bss_read_split : forall n1 n2 st,
+  bss_read (n1 + n2) st = ('(v1, s1) <- bss_read n1 st ;; '(v2, s2) <- bss_read n2 s1 ;; Ok (v1 ++ v2, s2)).
+Proof. exact bss_read_split. Qed.
+Print Assumptions C10_bss_read_split.
 
 (* NOT proved (kept as the targets of the next revision):
    - dbp_roundtrip: forall bits vals, values < 2^bits -> dbp_decode_split bits (dbp_encode bits blk mbc vals) [length vals] = Ok [vals]
